@@ -27,6 +27,34 @@ func runC08(c *Ctx) {
 	borrow(c, "O8", "C03", "O5", "only active-allocated pods are eviction candidates", "evicting a pod that is already releasing subtracts resources from the queue that were never added")
 
 	p, fx := c.P, c.Fx
+	// ---- O10: the scheduler's snapshot decides 'non-preemptible' from the pod group's own spec.preemptibility
+	// (falling back to the priority only when the spec leaves it open): the non-preemptible quota check and the
+	// AllocatedNotPreemptible counters are keyed on that verdict
+	if sp := c.Anchor("O10", "pkg/scheduler/cache/cluster_info", "ClusterInfo", "setPodGroupPriorityAndPreemptibility"); sp != nil {
+		calc := 0
+		for _, h := range p.deepFind(sp, func(in ssa.Instruction) bool {
+			cc, ok := in.(ssa.CallInstruction)
+			return ok && calleeOf(cc) != nil && calleeOf(cc).Name() == "CalculatePreemptibility"
+		}, 2) {
+			calc++
+			args := h.In.(ssa.CallInstruction).Common().Args
+			t0 := liftTerm(termOf(args[0]), h.Chain)
+			okA := len(args) == 2 && strings.HasSuffix(t0.String(), ".Spec.Preemptibility")
+			c.Check(okA, "O10", "PROV", funcKey(sp)+": preemptibility = CalculatePreemptibility(podGroup.Spec.Preemptibility, priority)", instrPos(h.In), trunc(t0.String(), 100),
+				"the snapshot does not derive preemptibility from the pod group's spec.preemptibility ("+trunc(t0.String(), 100)+"): a pod group declared non-preemptible with a priority below the threshold is scheduled as preemptible — neither checked against nor counted in its queues' non-preemptible quota")
+			// and the result is what the session's PodGroupInfo carries
+			stored := false
+			if v, isV := h.In.(ssa.Value); isV {
+				for _, r := range *v.Referrers() {
+					if st, isSt := r.(*ssa.Store); isSt && termOf(st.Addr).lastField() == "Preemptibility" {
+						stored = true
+					}
+				}
+			}
+			c.Check(stored || len(h.Chain) > 0, "O10", "PROV", funcKey(sp)+": the computed preemptibility is stored in the PodGroupInfo", instrPos(h.In), "podGroupInfo.Preemptibility = …", "the computed preemptibility is not stored in the session's pod group")
+		}
+		c.Floor("O10", "PROV preemptibility computations", calc, 1)
+	}
 	isSchedFact := func(callName string) func(f Fact) bool {
 		return func(f Fact) bool {
 			return f.Pol && f.T.Op == "field" && f.T.Name == "IsSchedulable" && isCallNamed(f.T.Args[0], callName)
